@@ -3792,65 +3792,82 @@ def exRest (strict : Bool) (var : Name) : Cfg :=
     sig := { pos := [⟨2, none⟩], varArgs := true, kwOnly := [], varName := var, tupleOf := fun _ => .obj 55 },
     strict := strict, ignoreInput := false, req := .noContext }
 
--- `f(100, 101, 102)`: the surplus positional 101 goes through the chain of the unused Parameter `b` (102 finds no Parameter
--- and is dropped) — with `*args` and with `*rest` alike, strict or not
+-- `f(100, 101, 102)`: the surplus positional 101 goes through the chain of the unused Parameter `b`; 102 finds no Parameter:
+-- non-strict it is dropped, `strict` raises TooManyArguments — with `*args` and with `*rest` alike
 example : runValidate (exRest false argsName) false .args [.obj 100, .obj 101, .obj 102] []
     = .ok ⟨[(2, .obj 801)], [.obj 810]⟩ := by rfl
 example : runValidate (exRest false 10) false .args [.obj 100, .obj 101, .obj 102] []
     = .ok ⟨[(2, .obj 801)], [.obj 810]⟩ := by rfl
-example : runValidate (exRest true 10) false .args [.obj 100, .obj 101, .obj 102] []
-    = .ok ⟨[(2, .obj 801)], [.obj 810]⟩ := by rfl
+example : runValidate (exRest true 10) false .args [.obj 100, .obj 101, .obj 102] [] = .error .tooMany := by rfl
+example : runValidate (exRest true 10) false .args [.obj 100, .obj 101] [] = .ok ⟨[(2, .obj 801)], [.obj 810]⟩ := by rfl
 -- a rejected surplus positional blocks the body
 example : runValidate { exRest false 10 with ps := [⟨2, true, none, none, none, [exV 1 []], false, by decide⟩,
       ⟨3, false, some (.obj 70), none, none, [exV 2 [101]], false, by decide⟩] } false .args [.obj 100, .obj 101] []
     = .error (.parameter 3 (.validator 0)) := by rfl
 
-/-! ### the surplus positionals in the current shape of the zip branch (finding `varPositionalSurplusDropped`)
+/-! ### the surplus positionals (former finding `varPositionalSurplusDropped`, repaired)
 
-`[a for a in args if a not in used_args]` filters ALL positionals of the call by EQUALITY with the validated named ones, and
-nothing refuses a surplus positional that finds no Parameter. -/
+The zip branch takes the surplus positionals from `bound_args[k]` — the tuple `bind_partial` bound to the VAR_POSITIONAL parameter:
+all of them, equal values and all, and not the receiver of a method — and under `strict` refuses a surplus positional that no
+declared parameter is left to take. -/
 
-/-- **negation witness (strict)**: `strict=True`, `def f(a, *rest)`, Parameters `a` and `b` (not required): `f(100, 101, 102)` —
-    101 goes to `b`, 102 finds no Parameter and is silently dropped although `strict` promises TooManyArguments for an argument
-    without declared Parameter; the body runs -/
-theorem strict_surplus_positional_full_fails : ¬ strict_surplus_positional_full := by
-  intro h
-  obtain ⟨e, he⟩ := h (exRest true 10) false .args [.obj 100, .obj 101, .obj 102] [] rfl rfl (by decide)
-  have : (runValidate (exRest true 10) false .args [.obj 100, .obj 101, .obj 102] [] : Outcome) = .ok ⟨[(2, .obj 801)], [.obj 810]⟩ := by
-    rfl
-  rw [this] at he; cases he
+/-- **the generated facts about the zip branch**: the surplus positionals are the bound tuple; the strict test in front of the
+    inner loop is "`strict` and more surplus positionals than Parameters left"; `used_args` is recorded nowhere (nothing reads it) -/
+theorem zip_branch_source_shape :
+    zipSurplusSource = .boundTuple ∧ (∀ strict n u, zipStrictTest strict n u = (strict && decide (n > u))) ∧
+    posDeclaredWrite.recordsArg = false ∧ posUndeclaredWrite.recordsArg = false := by
+  refine ⟨by decide, ?_, by decide, by decide⟩
+  intro strict n u
+  cases strict <;> simp [zipStrictTest]
 
-/-- the call is outside the guard of the partial theorems -/
-example : surplusGuard (exRest true 10) [.obj 100, .obj 101, .obj 102] [] = false := by decide
+/-- the guard of the `_guarded` theorems holds for **every** call: the region of the former finding is empty -/
+theorem surplusGuard_holds (c : Cfg) (args : List PV) (kw : List (Name × PV)) : surplusGuard c args kw = true := by
+  unfold surplusGuard
+  have h1 : ∀ ua, surplusOf args (args.drop c.sig.pos.length) ua = args.drop c.sig.pos.length := by
+    intro ua; unfold surplusOf; rw [zip_branch_source_shape.1]
+  simp [h1, zip_branch_source_shape.2.1]
+
+/-- the full statement of the processing-order specification: every signature, every call -/
+def gate_spec_full : Prop := ∀ (c : Cfg) (args : List PV) (kw : List (Name × PV)), wrapperContent c args kw = (gate c args kw).out
+
+/-- **C12 (processing order), every signature, every call** — `*args` included: the surplus positionals are handed, in order and
+    all of them, to the declared parameters the caller did not supply, in declaration order; `strict` refuses what is left -/
+theorem gate_spec_full_proved : gate_spec_full := fun c args kw => gate_spec_guarded c args kw (surplusGuard_holds c args kw)
+
+/-- **C12 (strict, surplus positionals), every signature**: with `strict=True` a surplus positional that no declared parameter is
+    left to take stops the call -/
+theorem strict_surplus_positional_full_proved : strict_surplus_positional_full :=
+  fun c a m args kw hi hs hmore => strict_surplus_positional_partial c a m args kw (surplusGuard_holds c args kw) hi hs hmore
+
+/-- **C12 (gate), every signature**: if any item of the call fails, the body does not run -/
+theorem reject_blocks_body_any_signature (c : Cfg) (a : Bool) (m : Mode) (args : List PV) (kw : List (Name × PV))
+    (it : Item) (e : VExc) (hit : it ∈ gateItems c args kw) (hrej : itemOut c it = .error e) :
+    ∃ e', runValidate c a m args kw = .error e' :=
+  reject_blocks_body_guarded c a m args kw (surplusGuard_holds c args kw) it e hit hrej
+
+/-- **C12 (which exception), every signature** -/
+theorem first_rejecting_decides_any_signature (c : Cfg) (a : Bool) (m : Mode) (args : List PV) (kw : List (Name × PV))
+    (pre post : List Item) (it : Item) (e : VExc)
+    (hsplit : gateItems c args kw = pre ++ it :: post) (hpre : ∀ i ∈ pre, ∃ r, itemOut c i = .ok r)
+    (hrej : itemOut c it = .error e) :
+    runValidate c a m args kw = .error e :=
+  first_rejecting_decides_guarded c a m args kw (surplusGuard_holds c args kw) pre post it e hsplit hpre hrej
 
 /-- `def f(a, *rest)` with Parameters `a`, `b` (no validators), `strict=False` -/
 def exEqualSurplus : Cfg :=
   { ps := [⟨2, true, none, none, none, [], false, by decide⟩, ⟨3, false, some (.obj 70), none, none, [], false, by decide⟩],
     sig := { pos := [⟨2, none⟩], varArgs := true, kwOnly := [] }, strict := false, ignoreInput := false, req := .noContext }
 
-/-- the full statement of the processing-order specification: every signature, every call -/
-def gate_spec_full : Prop := ∀ (c : Cfg) (args : List PV) (kw : List (Name × PV)), wrapperContent c args kw = (gate c args kw).out
-
-/-- **negation witness (equality)**: `f(105, 105, 106)` — the first surplus positional is EQUAL to the value validated for `a`, so
-    the filter `a not in used_args` drops it (together with the first positional itself): `b` receives 106 instead of 105 -/
-theorem gate_spec_full_fails : ¬ gate_spec_full := by
-  intro h
-  have h1 := h exEqualSurplus [.obj 105, .obj 105, .obj 106] []
-  have h2 : wrapperContent exEqualSurplus [.obj 105, .obj 105, .obj 106] [] = .ok [(2, .obj 105), (3, .obj 106)] := by rfl
-  have h3 : (gate exEqualSurplus [.obj 105, .obj 105, .obj 106] []).out = .ok [(2, .obj 105), (3, .obj 105)] := by rfl
-  rw [h2, h3] at h1
-  cases h1
-example : surplusGuard exEqualSurplus [.obj 105, .obj 105, .obj 106] [] = false := by decide
--- distinct values: inside the guard, and the specification is met
-example : surplusGuard exEqualSurplus [.obj 105, .obj 107, .obj 106] [] = true := by decide
-example : wrapperContent exEqualSurplus [.obj 105, .obj 107, .obj 106] [] = (gate exEqualSurplus [.obj 105, .obj 107, .obj 106] []).out :=
-  gate_spec_guarded _ _ _ (by decide)
--- a method `def f(self, a, *rest)`: the receiver itself is a positional that is not in `used_args` — it is validated as the first
--- surplus positional (`b = <the receiver>`); outside the guard
-example : surplusGuard { exEqualSurplus with sig := { pos := [⟨selfName, none⟩, ⟨2, none⟩], varArgs := true, kwOnly := [] } }
-    [.obj 90, .obj 105, .obj 106] [] = false := by decide
-example : wrapperContent { exEqualSurplus with sig := { pos := [⟨selfName, none⟩, ⟨2, none⟩], varArgs := true, kwOnly := [] } }
-    [.obj 90, .obj 105, .obj 106] [] = .ok [(selfName, .obj 90), (2, .obj 105), (3, .obj 90)] := by rfl
+/-- **the former failing inputs, repaired**: `f(105, 105, 106)` — the surplus positional EQUAL to the value of `a` is no longer
+    dropped: `b` receives it; for the method `def f(self, a, *rest)` the receiver is no surplus positional; `strict` with a surplus
+    positional that finds no Parameter raises TooManyArguments -/
+theorem fixed_surplus_positionals :
+    wrapperContent exEqualSurplus [.obj 105, .obj 105, .obj 106] [] = .ok [(2, .obj 105), (3, .obj 105)] ∧
+    wrapperContent { exEqualSurplus with sig := { pos := [⟨selfName, none⟩, ⟨2, none⟩], varArgs := true, kwOnly := [] } }
+      [.obj 90, .obj 105, .obj 106] [] = .ok [(selfName, .obj 90), (2, .obj 105), (3, .obj 106)] ∧
+    (runValidate (exRest true 10) false .args [.obj 100, .obj 101, .obj 102] [] : Outcome) = .error .tooMany ∧
+    (runValidate { exEqualSurplus with strict := true } true .kwWithNone [.obj 105, .obj 105, .obj 106] [] : Outcome) = .error .tooMany := by
+  decide
 
 /-- the generated test of the `zip` branch is exactly "k is the VAR_POSITIONAL parameter of the signature".  (This and
     `ordinary_key_never_zips`, `var_positional_spelling_irrelevant` are *regression guards* for the repaired finding
@@ -4734,6 +4751,11 @@ theorem journal_spec (c : Cfg) (args : List PV) (kw : List (Name × PV)) (hg : s
                   intro p _
                   simp only [List.contains_append, Bool.not_or, Bool.and_comm]
                 rw [filter_journalW c.ps (fun n => !u3.contains n), (loopUnusedW_journal c _ r3 wZ).2, hf]
+
+/-- **C12 (journal), every signature, every call** -/
+theorem journal_spec_any_signature (c : Cfg) (args : List PV) (kw : List (Name × PV)) (w : List JEntry) :
+    (wrapperContentW c.journalW args kw w).2 = w ++ (gate c args kw).journal :=
+  journal_spec c args kw (surplusGuard_holds c args kw) w
 
 -- `f(100, 101)` on `exGate [801]` (the second validator of `a` rejects): the journal lists the two invocations for `a` and none for `b`
 example : (wrapperContentW (exGate [801]).journalW [.obj 100, .obj 101] [] []).2 = [(2, 0, .obj 100), (2, 1, .obj 801)] := by
